@@ -40,7 +40,8 @@ def run(ctx):
     # 3. impl -> spec
     runs, length = ctx.pick((40, 150), (400, 300))
     tpath = ctx.path("trace.ndjson")
-    ctx.harness(binary, ["record", tpath, str(runs), str(length)])
+    # every fifth history is long, set-heavy and never re-parsed (>= 2^8 sets on one object); thorough adds one of 70 000 calls (2^16)
+    ctx.harness(binary, ["record", tpath, str(runs), str(length), str(ctx.pick(0, 70000))])
     events = vlib.read_ndjson(tpath)
     cpath2 = ctx.path("trace_checked.ndjson")
     ctx.harness(ctx.build("checked", "mvh_text"), ["record", cpath2, str(max(4, runs // 4)), str(length)], env={"VERIF_SEED": str(ctx.seed + 1)})
